@@ -46,7 +46,9 @@ structure Shown where
 
 /-- the property on one shown record: ready exactly when no correlation is needed or both sides
     were seen; when correlated, every correlate field that is non-empty on either side is non-empty
-    in the merged record and comes from one of the two; `filled` as documented -/
+    in the merged record and comes from one of the two (a field a record lacks, `CorrV.absent`, counts
+    as empty); the merged record carries a field exactly when one of the two records carries it, and
+    every carried value is that of one of the two; `filled` as documented -/
 def checkShown (t : Tracker) (s : Shown) : Option String :=
   match t.find s.key with
   | none => some "unknown-flow"
@@ -62,6 +64,9 @@ def checkShown (t : Tracker) (s : Shown) : Option String :=
           let triples := (f.first.zip o).zip s.corr
           if triples.length != f.first.length then some "field-count"
           else if triples.any (fun p => (!(p.1.1.isEmpty) || !(p.1.2.isEmpty)) && (p.2.isEmpty || !(p.2 == p.1.1 || p.2 == p.1.2)))
-          then some "merged-field-lost" else none
+          then some "merged-field-lost"
+          else if triples.any (fun p => p.2.isAbsent != (p.1.1.isAbsent && p.1.2.isAbsent)) then some "merged-field-presence"
+          else if triples.any (fun p => !(p.2 == p.1.1 || p.2 == p.1.2)) then some "merged-field-foreign"
+          else none
 
 end Ipfix.C07
